@@ -605,7 +605,8 @@ func c16class(err error) string {
 }
 
 type c16result struct {
-	badmap  bool // the block map is not well formed: outside the quantifier
+	badmap  bool  // the block map is not well formed: outside the quantifier
+	itemerr error // first WriteItem error
 	stored  bool
 	imperr  error
 	valerr  error
@@ -614,7 +615,8 @@ type c16result struct {
 	tampers []string
 }
 
-func (e *c16env) run(basename, order string, tampers []c16tamper) c16result {
+// cont: the caller ignores WriteItem errors, writes the remaining items and calls Save (+ merge) anyway
+func (e *c16env) run(basename, order string, tampers []c16tamper, cont bool) c16result {
 	e.seq++
 	src := filepath.Join(e.work, fmt.Sprintf("src-%d", e.seq))
 	dst := filepath.Join(e.work, fmt.Sprintf("dst-%d", e.seq))
@@ -740,9 +742,14 @@ func (e *c16env) run(basename, order string, tampers []c16tamper) c16result {
 			err = fmt.Errorf("item %q not found in source", t)
 		}
 		if err != nil {
-			res.imperr = err
+			if res.itemerr == nil {
+				res.itemerr = err
+			}
+			if !cont {
+				res.imperr = err
 
-			break
+				break
+			}
 		}
 	}
 
@@ -800,7 +807,8 @@ func TestVerifC16(t *testing.T) {
 
 	r.Rule("one real block (2 operations, 2 states, proposal, INIT+ACCEPT voteproofs, really signed map) per base; every subset of <= depth tampers of the alphabet " +
 		"(mutually exclusive tampers of one component not combined) is written by the real LocalFSWriter (map re-signed, checksums recomputed), " +
-		"imported by the real BlockImporter and, if stored, validated by IsValidBlockFromLocalFS; non-trivial = the reference predicate names at least one broken clause")
+		"imported by the real BlockImporter (driver 1: stop at the first WriteItem error like ImportBlocks; driver 2, whenever a WriteItem failed: ignore the error, write the remaining items, Save and merge anyway) " +
+		"and, if stored, validated by IsValidBlockFromLocalFS; non-trivial = the reference predicate names at least one broken clause")
 	r.Assume("signature/hash primitives and the individual IsValid methods are trusted; the block map is a valid map signed by the source node (the syncer checks that before importing)")
 
 	e := c16newenv(t)
@@ -840,7 +848,7 @@ func TestVerifC16(t *testing.T) {
 
 	// sanity (every shard): the untampered block is stored and accepted, otherwise nothing below means anything
 	for _, bn := range []string{"plain", "suffrage"} {
-		res := e.run(bn, "fwd", nil)
+		res := e.run(bn, "fwd", nil, false)
 		if !res.stored || res.valerr != nil || res.srcerr != nil || len(res.broken) > 0 {
 			t.Fatalf("c16: untampered block (base %s) not stored/valid: importer=%v validator=%v source=%v broken=%v",
 				bn, res.imperr, res.valerr, res.srcerr, res.broken)
@@ -867,60 +875,83 @@ func TestVerifC16(t *testing.T) {
 					tampers[i] = alphabet[ss[i]]
 					names[i] = alphabet[ss[i]].name
 				}
-				id := fmt.Sprintf("base=%s/order=%s/tampers=%s", bn, order, strings.Join(names, "+"))
-				if !r.Want(id) {
+				baseid := fmt.Sprintf("base=%s/order=%s/tampers=%s", bn, order, strings.Join(names, "+"))
+				contid := baseid + "/driver=continue-after-writeitem-error"
+				wantStop, wantCont := r.Want(baseid), r.Want(contid)
+				if !wantStop && !wantCont {
 					continue
 				}
 
-				res := e.run(bn, order, tampers)
-				if res.badmap {
+				first := e.run(bn, order, tampers, false)
+				if first.badmap {
 					r.Add("skipped_block_map_not_wellformed", 1)
 					r.Outcome("precondition:block-map-not-wellformed")
 
 					continue
 				}
-				r.Eval()
-				r.Trace()
-				r.State(id)
-				if len(res.broken) > 0 {
-					r.Nontrivial(id)
+
+				type one struct {
+					id   string
+					res  c16result
+					cont bool
+				}
+				var runs []one
+				if wantStop {
+					runs = append(runs, one{baseid, first, false})
+				}
+				// whatever the caller does with a WriteItem error, the block must not be stored: write the rest, Save, merge
+				if first.itemerr != nil && wantCont {
+					runs = append(runs, one{contid, e.run(bn, order, tampers, true), true})
 				}
 
-				switch {
-				case !res.stored:
-					r.Outcome("importer-rejects:" + c16class(res.imperr) + "/source-validator:" + c16class(res.srcerr))
-				default:
-					r.Outcome("stored/validator:" + c16class(res.valerr))
-				}
-				r.Sample(map[string]any{"case": id, "stored": res.stored, "importer": fmt.Sprint(res.imperr), "validator_on_imported": fmt.Sprint(res.valerr), "broken_clauses": res.broken})
-
-				if !res.stored {
-					if len(res.broken) == 0 {
-						r.Add("wellformed_rejected_by_importer", 1) // not a violation of the (one-directional) property
+				for _, x := range runs {
+					id, res := x.id, x.res
+					r.Eval()
+					r.Trace()
+					r.State(id)
+					if len(res.broken) > 0 {
+						r.Nontrivial(id)
 					}
 
-					continue
-				}
-
-				r.Add("stored", 1)
-				validator := "accepts"
-				if res.valerr != nil {
-					validator = "rejects"
-				}
-
-				detail := fmt.Sprintf("BlockImporter stored the block (all WriteItem + Save + merge returned nil) although %v; IsValidBlockFromLocalFS on the imported files: %v; tampers: %v",
-					res.broken, res.valerr, names)
-
-				switch {
-				case len(res.broken) > 0:
-					for _, c := range res.broken {
-						r.Violation(id, map[string]any{"kind": "importer-accepts", "clause": c, "validator": validator}, detail,
-							map[string]any{"base": bn, "order": order, "tampers": names})
+					mode := ""
+					if x.cont {
+						mode = "continued-after:" + c16class(res.itemerr) + "/"
 					}
-				case res.valerr != nil:
-					// differential mismatch that the reference predicate does not explain
-					r.Violation(id, map[string]any{"kind": "importer-accepts", "clause": "none", "validator": "rejects:" + c16class(res.valerr)}, detail,
-						map[string]any{"base": bn, "order": order, "tampers": names})
+					switch {
+					case !res.stored:
+						r.Outcome(mode + "importer-rejects:" + c16class(res.imperr) + "/source-validator:" + c16class(res.srcerr))
+					default:
+						r.Outcome(mode + "stored/validator:" + c16class(res.valerr))
+					}
+					r.Sample(map[string]any{"case": id, "stored": res.stored, "importer": fmt.Sprint(res.imperr), "validator_on_imported": fmt.Sprint(res.valerr), "broken_clauses": res.broken})
+
+					if !res.stored {
+						if len(res.broken) == 0 {
+							r.Add("wellformed_rejected_by_importer", 1) // not a violation of the (one-directional) property
+						}
+
+						continue
+					}
+
+					r.Add("stored", 1)
+					validator := "accepts"
+					if res.valerr != nil {
+						validator = "rejects"
+					}
+
+					detail := fmt.Sprintf("BlockImporter stored the block (Save + merge returned nil; first WriteItem error: %v) although %v; IsValidBlockFromLocalFS on the imported files: %v; tampers: %v",
+						res.itemerr, res.broken, res.valerr, names)
+					replay := map[string]any{"base": bn, "order": order, "tampers": names, "continue_after_writeitem_error": x.cont}
+
+					switch {
+					case len(res.broken) > 0:
+						for _, c := range res.broken {
+							r.Violation(id, map[string]any{"kind": "importer-accepts", "clause": c, "validator": validator, "writeitem_error_ignored": x.cont}, detail, replay)
+						}
+					case res.valerr != nil:
+						// differential mismatch that the reference predicate does not explain
+						r.Violation(id, map[string]any{"kind": "importer-accepts", "clause": "none", "validator": "rejects:" + c16class(res.valerr), "writeitem_error_ignored": x.cont}, detail, replay)
+					}
 				}
 			}
 		}
